@@ -990,4 +990,99 @@ theorem runKill_apply (cfg : KillCfg) (rank : List View → List View) (h : Rank
   · simp only [hc, if_false, Bool.false_eq_true]
     cases cfg.hasRuleset <;> cases cfg.postActionDelay <;> simp
 
+theorem segments_mem (f : View → Nat → M Bool) : ∀ (l : List View) (k : Nat) (env : Env) (s : View × R Bool),
+    s ∈ segments f l k env → s.1 ∈ l ∧ ∃ k' env', s.2 = f s.1 k' env' := by
+  intro l
+  induction l with
+  | nil => intro k env s h; simp [segments] at h
+  | cons v vs ih =>
+    intro k env s h
+    simp only [segments, List.mem_cons] at h
+    cases h with
+    | inl h => subst h; exact ⟨by simp, k, env, rfl⟩
+    | inr h =>
+      split at h
+      · simp at h
+      · obtain ⟨h1, h2⟩ := ih _ _ s h
+        exact ⟨by simp [h1], h2⟩
+
+theorem mem_subtreeIds (v : View) (x : Nat) :
+    x ∈ subtreeIds v ↔ x = v.id ∨ x ∈ forestIds v.children := by
+  cases v; simp [subtreeIds, View.id, View.info, View.children]
+
+theorem mem_forestIds (cs : List View) (x : Nat) : x ∈ forestIds cs ↔ ∃ c ∈ cs, x ∈ subtreeIds c := by
+  induction cs with
+  | nil => simp [forestIds]
+  | cons c cs ih => simp [forestIds, ih]
+
+/-! ## selecting events by kind -/
+
+def isX (n : XName) : Ev → Bool
+  | .setxattr _ m _ _ _ => m == n
+  | _ => false
+
+def isStat : Ev → Bool
+  | .statKills => true
+  | _ => false
+
+def isKmsg : Ev → Bool
+  | .kmsg _ _ => true
+  | _ => false
+
+/-- anything that changes the world or a counter: signal, xattr, control file, reap syscalls, stats, D-Bus -/
+def isEffect : Ev → Bool
+  | .kill _ _ | .setxattr _ _ _ _ _ | .write _ _ _ | .pidfdOpen _ _ | .mrelease _ _ | .statKills
+  | .dbus _ _ | .statRestarts => true
+  | _ => false
+
+theorem flatMap_congr' {α β} {f g : α → List β} : ∀ (l : List α), (∀ x ∈ l, f x = g x) → l.flatMap f = l.flatMap g := by
+  intro l
+  induction l with
+  | nil => intro _; rfl
+  | cons a as ih =>
+    intro h
+    simp only [List.flatMap_cons]
+    rw [h a (by simp), ih (fun x hx => h x (by simp [hx]))]
+
+theorem filter_nil_of_forall {p : Ev → Bool} {l : List Ev} (h : ∀ e ∈ l, p e = false) : l.filter p = [] := by
+  rw [List.filter_eq_nil_iff]; intro e he; simp [h e he]
+
+theorem KillPhaseEv.notX {ids : List Nat} {e : Ev} (h : KillPhaseEv ids e) (n : XName) :
+    isX n e = false ∧ isStat e = false ∧ isKmsg e = false := by
+  cases e <;> simp_all [KillPhaseEv, isX, isStat, isKmsg]
+
+theorem ReapPhaseEv.notX {ids : List Nat} {e : Ev} (h : ReapPhaseEv ids e) (n : XName) :
+    isX n e = false ∧ isStat e = false ∧ isKmsg e = false ∧ isKillOk e = false := by
+  cases e <;> simp_all [ReapPhaseEv, isX, isStat, isKmsg, isKillOk]
+
+theorem logEvs_notX (v : View) (m : Nat) (n : XName) : (logEvs v m).filter (isX n) = [] ∧ (logEvs v m).filter isKillOk = [] := by
+  unfold logEvs; split <;> simp [isX, isKillOk]
+
+/-- the plan does not depend on anything but `recursive` -/
+theorem attempts_congr (cfg cfg' : KillCfg) (rank : List View → List View) (hsub : ∀ l x, x ∈ rank l → x ∈ l)
+    (hrec : cfg.recursive = cfg'.recursive) :
+    ∀ (n : Nat) (v : View), vsize v ≤ n → attempts cfg rank hsub v = attempts cfg' rank hsub v := by
+  intro n
+  induction n with
+  | zero => intro v h; have := vsize_pos v; omega
+  | succ n ih =>
+    intro v hv
+    rw [attempts_unfold, attempts_unfold]
+    have hd : descends cfg v = descends cfg' v := by simp [descends, mayRecurse, hrec]
+    rw [hd]
+    split
+    · apply flatMap_congr'
+      intro c hc
+      have := vsize_child (hsub _ _ hc)
+      exact ih c (by omega)
+    · rfl
+
+theorem plan_congr (cfg cfg' : KillCfg) (rank : List View → List View) (hsub : ∀ l x, x ∈ rank l → x ∈ l)
+    (hrec : cfg.recursive = cfg'.recursive) (roots : List View) :
+    plan cfg rank hsub roots = plan cfg' rank hsub roots := by
+  unfold plan
+  apply flatMap_congr'
+  intro r _
+  exact attempts_congr cfg cfg' rank hsub hrec (vsize r) r (Nat.le_refl _)
+
 end OomdModel.Kill
